@@ -55,11 +55,27 @@ pub fn period(cap: usize) -> BoxedStrategy<usize> {
     }
     let mid_hi = cap.min(32);
     let lcap = (cap as f64).ln();
+    // structural periods: neighbours of powers of two and non-multiples of common block sizes
+    // (where chunked loops, capacity thresholds and narrow counters change behaviour)
+    const STRUCT: [usize; 24] = [31, 33, 63, 64, 65, 100, 127, 128, 129, 150, 191, 192, 200, 255, 256, 257, 300, 500, 511, 512, 513, 1000, 1023, 1024];
+    let st: Vec<usize> = STRUCT.iter().copied().filter(|&x| x <= cap).collect();
+    if st.is_empty() {
+        return prop_oneof![
+            33 => 1usize..=5,
+            2 => Just(1usize),
+            33 => 6usize..=mid_hi,
+            28 => (0.0f64..1.0).prop_map(move |u| ((u * lcap).exp().round() as usize).clamp(1, cap)),
+            4 => Just(cap),
+        ]
+        .boxed();
+    }
+    let nst = st.len();
     prop_oneof![
-        33 => 1usize..=5,
+        30 => 1usize..=5,
         2 => Just(1usize),
-        33 => 6usize..=mid_hi,
-        28 => (0.0f64..1.0).prop_map(move |u| ((u * lcap).exp().round() as usize).clamp(1, cap)),
+        30 => 6usize..=mid_hi,
+        22 => (0.0f64..1.0).prop_map(move |u| ((u * lcap).exp().round() as usize).clamp(1, cap)),
+        12 => (0..nst).prop_map(move |i| st[i]),
         4 => Just(cap),
     ]
     .boxed()
@@ -123,6 +139,13 @@ pub enum Domain {
     Positive,
     /// positive, multiples of a power-of-two grid (differences exact; ties exact)
     PositiveGrid,
+    /// positive prices quoted in an extremely small unit: around 1e-300 (normal numbers whose
+    /// differences and products are subnormal) or around 3e-310 (subnormal themselves)
+    TinyPositive,
+    /// any sign, magnitudes around 1e-305
+    TinyAnySign,
+    /// like TinyPositive but the prices themselves stay normal numbers (1e-306 .. 1e-297)
+    TinyNormal,
 }
 
 pub const N_REGIMES: usize = 10;
@@ -201,7 +224,12 @@ pub fn expand(domain: Domain, regime: usize, base: f64, aux: f64, noise: &[f64])
                 *v = (q * g).clamp(g, if base > 1e6 { base * 1e7 } else { 1e9 });
             }
         }
-        Domain::AnySign => {
+        Domain::TinyPositive | Domain::TinyNormal => {
+            for v in out.iter_mut() {
+                *v = v.abs().clamp(base * 1e-3, base * 1e7);
+            }
+        }
+        Domain::AnySign | Domain::TinyAnySign => {
             // regime-dependent sign treatment: straddle zero for half the aux range
             let mode = ((aux * 4.0) as usize) % 4;
             let centre = base * match regime {
@@ -252,6 +280,9 @@ fn base_strategy(domain: Domain) -> BoxedStrategy<f64> {
             1 => Just(1e15),
         ]
         .boxed(),
+        Domain::TinyPositive => prop_oneof![Just(1e-300), Just(3e-310), Just(2e-306)].boxed(),
+        Domain::TinyAnySign => prop_oneof![Just(1e-305), Just(4e-303)].boxed(),
+        Domain::TinyNormal => prop_oneof![Just(1e-300), Just(2e-303), Just(5e-304)].boxed(),
         Domain::PositiveGrid => prop_oneof![
             12 => (-6i32..=20).prop_map(|k| 2f64.powi(k)),
             1 => Just(2f64.powi(-70)),
@@ -273,6 +304,8 @@ pub fn stream(domain: Domain, min_len: usize, max_len: usize) -> BoxedStrategy<S
     (0..N_REGIMES, base_strategy(domain), 0.0f64..1.0, vec(0.0f64..1.0, min_len..=max_len))
         .prop_map(move |(regime, base, aux, noise)| {
             let regime = if domain != Domain::AnySign && regime >= 8 { regime - 8 } else { regime };
+            // spikes of 1e6x would leave the tiny range: use the walk instead
+            let regime = if matches!(domain, Domain::TinyPositive | Domain::TinyAnySign | Domain::TinyNormal) && (regime == 3 || regime == 2) { 0 } else { regime };
             Stream { regime, vals: expand(domain, regime, base, aux, &noise) }
         })
         .boxed()
@@ -379,6 +412,16 @@ pub fn bar_stream(grid: bool, min_len: usize, max_len: usize) -> BoxedStrategy<B
             let g = if grid { Some(grid_step(base)) } else { None };
             BarStream { regime, bars: bars_from(&vals, &shape, g) }
         })
+        .boxed()
+}
+
+/// valid bars quoted in an extremely small price unit (see Domain::TinyPositive)
+pub fn bar_stream_tiny(min_len: usize, max_len: usize) -> BoxedStrategy<BarStream> {
+    bar_stream_dom(Domain::TinyPositive, min_len, max_len)
+}
+pub fn bar_stream_dom(dom: Domain, min_len: usize, max_len: usize) -> BoxedStrategy<BarStream> {
+    (stream(dom, min_len, max_len), vec((0.0f64..1.0, 0.0f64..1.0, 0.0f64..1.0, 0.0f64..1.0, 0.0f64..1.0), 1..=64))
+        .prop_map(|(s, shape)| BarStream { regime: s.regime, bars: bars_from(&s.vals, &shape, None) })
         .boxed()
 }
 
